@@ -100,6 +100,22 @@ func c14Fields(c *Ctx) {
 		forceName = fnName(pf)
 	}
 	force := "call<" + forceName + ">(call<dyn p1>())"
+	// the words of the forced command are read from the argument list, which stays as it was: nothing on the parser's
+	// tree writes into storage shared with it (tokens built in place over the list overwrite arguments not yet read)
+	for _, g := range w.Tree(fn) {
+		if fnName(g) != forceName || len(g.Params) == 0 {
+			continue
+		}
+		c.Saw(g)
+		argList := g.Params[0]
+		muts := w.aliasMutations(w.Tree(g), func(v ssa.Value) bool { return v == ssa.Value(argList) })
+		for _, mu := range muts {
+			c.Bad("R2.policy", shortFn(mu.fn)+"|in-place write to the argument list", w.Pos(mu.at.Pos()), "the parser writes into storage shared with the argument list it is reading: "+mu.what)
+		}
+		if len(muts) == 0 {
+			c.Ok("R2.policy", shortFn(g)+"|argument list only read", w.FnPos(g), "alias flow from the argument list: no element store, no in-place library call, no append onto a shortened view")
+		}
+	}
 	want := map[string]string{
 		"LogName":         env("LOGNAME"),
 		"ClientIP":        "call<strings.Split>(" + env("SSH_CONNECTION") + `,const(" "))[const(0)]`,
